@@ -30,6 +30,7 @@ EXPLANATION = (
     "blank strings are empty. (SPINE) chapters (and with them their tables) are dropped from the EPUB spine only when the "
     "itemref cannot be resolved. (DIM) = C04-DIM, (VIEW) = C14-VIEW: get_dim() is the shape of get_table(); unit tables and "
     "iterate_tables() are built from the same fields."
+    " (GRID) implicit grid positions are made explicit: the DOCX table reader pads rows for w:gridSpan / w:gridBefore / w:gridAfter; the XLSX reader calls reset_dimensions() on every path to iter_rows(), so a stale <dimension> element cannot clip the sheet."
 )
 NOT_DECIDED = [
     "the value in a cell (numbers, dates, formula results: value level)",
